@@ -37,6 +37,7 @@ def run(tier, seed, scale):
         "classes Salloc and M contain the known defect cv.abandoned-range-starves-segment-waiters and run in processes of their own with few cases: the first wedge ends the process (watchdog verdict: CPU-time spin-stall or quiescence plus 'a growth call is in flight and an earlier call ended with an exception'); the same stall without an earlier failed call has a strict key",
         "raw slots inside size() after an allocation failure are the known finding cv.alloc-failure-leaves-raw-slots-in-size (keys c11.(S|Salloc|M).unconstructed-slot-*, emitted once per process); the same after a constructor throw is strict",
         "2^36 elements cost ~200 CPU-seconds and are reached in the thorough tier only (8 threads); the quick tier goes to 2^33; huge sizes run in the rel variant only",
+        "class T (strict): the allocation of the long segment table fails slowly while other single-element growth calls wait for it; every call must throw or return, nothing grows afterwards",
         "shrink_to_fit/clear/resize-down (which may move or destroy elements) are outside the property and not exercised",
     ]
     q = tier == "quick"
@@ -51,6 +52,9 @@ def run(tier, seed, scale):
         # wedge-able classes: the first wedge ends the process (watchdog verdict)
         Phase("rel-Salloc", "c11", "rel", 120 if q else 400, procs=3 if q else 5, args=["--mode", "Salloc"], timeout=t_wedge),
         Phase("rel-M", "c11", "rel", 150 if q else 500, procs=3 if q else 5, args=["--mode", "M"], timeout=t_wedge),
+        # strict: the allocation of the long segment table fails while other growth calls already wait for it; everybody must throw or return
+        Phase("rel-T", "c11", "rel", 6000 if q else 60000, procs=2 if q else 4, args=["--mode", "T"]),
+        Phase("dbg-T", "c11", "dbg", 2000 if q else 20000, procs=1 if q else 2, args=["--mode", "T"]),
         # huge sizes (one process each: seconds of CPU per size)
         Phase("rel-H31", "c11", "rel", 2, procs=1, args=["--mode", "H", "--hn", hx(P31, P31 + 5)], timeout=t_wedge),
         Phase("rel-H32", "c11", "rel", 1, procs=1, args=["--mode", "H", "--hn", hx(P32 + 10)], timeout=t_wedge),
@@ -96,11 +100,17 @@ def run(tier, seed, scale):
                 "class S: too few failed calls (constructor %d, allocation %d)" % (st.get("S_calls_failed_by_constructor", 0), st.get("S_calls_failed_by_allocation", 0)))
     chk.require(st.get("Salloc_scenarios", 0) + st.get("Salloc_wedged", 0) >= 3, "class Salloc was not exercised")
     chk.require(st.get("M_scenarios", 0) + st.get("M_wedged", 0) >= 3, "class M was not exercised")
+    chk.require(st.get("T_table_allocation_failed", 0) >= need(3000, 30000), "class T: the allocation of the long segment table failed in only %d scenarios" % st.get("T_table_allocation_failed", 0))
+    chk.require(st.get("T_scenarios_where_other_calls_threw_too", 0) >= need(1500, 15000), "class T: only %d scenarios in which other growth calls ended with an exception as well" % st.get("T_scenarios_where_other_calls_threw_too", 0))
+    chk.require(h.get("152", {}).get("h", [0] * 8)[4] >= need(500, 5000), "class T: only %d growth calls entered the wait for the long segment table" % h.get("152", {}).get("h", [0] * 8)[4])
     chk.require(st.get("H_sizes_reached_ge_2^31", 0) >= ((4 if scale >= 1 else 3) if q else 12) and st.get("H_sizes_reached_ge_2^32", 0) >= (2 if q else 6), "huge sizes were not reached (>=2^31: %d, >=2^32: %d)" % (st.get("H_sizes_reached_ge_2^31", 0), st.get("H_sizes_reached_ge_2^32", 0)))
     if not q:
         chk.require(st.get("max_H_size_log2", 0) >= 36, "2^36 elements were not reached")
     chk.require(st.get("shadow_lookup_raced", 0) == 0 or chk.stats.get("shadow_lookup_raced", 0) < 100, "the construction-counter lookup raced with block publication too often (tsan variant)")
     chk.extra["windows"] = {
+        "T_long_table_allocation_failures": st.get("T_table_allocation_failed", 0),
+        "T_scenarios_where_other_calls_threw_too": st.get("T_scenarios_where_other_calls_threw_too", 0),
+        "T_calls_that_entered_the_wait_for_the_long_table(hook152 arg4)": h.get("152", {}).get("h", [0] * 8)[4],
         "growth_calls": {c: st.get(c + "_calls", 0) for c in ("G", "E", "M")},
         "returned_ranges_checked_for_tiling": {c: st.get(c + "_tiles_checked", 0) for c in ("G", "E", "M")},
         "elements_checked_at_quiescence": {c: st.get(c + "_elements_checked", 0) for c in ("G", "E", "M")},
